@@ -32,6 +32,7 @@ func checkC15(c *Ctx, r *Report) {
 	tsigStubKept(c, r, "C15.R4.stub-kept", "after the first transfer the query has silently lost its TSIG; the next refresh with the same query goes out unsigned and an untampered, correctly keyed transfer fails with ErrNoSig (or is refused by the primary)")
 	c15ReceiveBounds(c, r, "C15.R5.receive-bounds")
 	secretFromProvider(c, r, "C15.R4.secret-from-provider", "a Transfer configured with one secret for a key name accepts envelopes signed with the secret another provider had for that name, and refuses correctly keyed ones")
+	borrow(c, r, c11R6, "C11.R6.strip", "C15.R3.strip", 3, "stripTsig cuts the message where the TSIG record starts", nil, "signer and verifier disagree about the signed octets as soon as an OPT precedes the TSIG: a valid signed transfer whose query carries EDNS fails")
 }
 
 // backEdges: edges u->h where h dominates u.
